@@ -288,3 +288,23 @@ def _merge(dicts) -> dict:
         for k, v in d.items():
             out[k] = out.get(k, 0) + v
     return out
+
+
+def replay(ctx: Ctx, pid: str, rep: dict) -> int:
+    """Re-record the execution named in a replay artefact (instance, seed, hash seed) on the current tree and let TLC judge it."""
+    r = rep.get("replay") or {}
+    if "instance" not in r or "seed" not in r:
+        print(f"REPLAY property={pid}: artefact has no recorded execution (model-level counterexample): {rep.get('what')}")
+        return 0
+    insts = {i.name: i for i in thorough_instances()}
+    inst = insts[r["instance"]]
+    scratch = ctx.scratch / "replay"
+    scratch.mkdir(exist_ok=True)
+    out, meta = _record(scratch, inst, int(r["seed"]), 1, int(r.get("hashseed", 0)), r.get("none_tasks", "") or "")
+    verdicts = _validate(scratch, inst, out, meta["comp_of"], False, 600)
+    clauses = sorted(verdicts.get(1, set()))
+    mine = [c for c in clauses if prop_of(strip(c)[1]) == pid]
+    print(f"REPLAY property={pid} instance={inst.name} seed={r['seed']} clauses={mine}")
+    if mine:
+        print(f"VIOLATION property={pid} replay={ctx.scratch}")
+    return 1 if mine else 0
